@@ -623,11 +623,18 @@ func (r *RateLimiterRules) ruleByNode(
 
 	nodes, suffrage := r.NodeRuleSet(), r.SuffrageRuleSet() // NOTE loaded once under lock; see Rule()
 
+	// NOTE net rule set comes before node and suffrage rule set; the limiter
+	// can be kept without asking it, only if it is not newer than the limiter.
+	if nets := r.NetRuleSet(); nets != nil && l.UpdatedAt() < nets.UpdatedAt() {
+		return l, false, false
+	}
+
 	if node != nil && nodes != nil && l.Type() == "node" && l.UpdatedAt() >= nodes.UpdatedAt() {
 		return l, false, true
 	}
 
-	if node != nil && suffrage != nil && l.Type() == "suffrage" && l.UpdatedAt() >= suffrage.UpdatedAt() {
+	if node != nil && suffrage != nil && l.Type() == "suffrage" && l.UpdatedAt() >= suffrage.UpdatedAt() &&
+		(nodes == nil || l.UpdatedAt() >= nodes.UpdatedAt()) { // NOTE node rule set comes before
 		switch st, exists, err := r.IsInConsensusNodesFunc(); {
 		case err != nil:
 		case !exists(node):
